@@ -36,40 +36,71 @@ var histDocs = []string{`{"a":1,"b":[1,2,{"c":3}]}`, `[{"a":1},{"a":2,"b":1},[1,
 // histConfigs builds the configurations; every user function tags its output
 // with the configuration it belongs to, so a leak between configurations is visible.
 func histConfigs() []func() []jsonpath.Config {
-	mk := func(tag string, f, g, h, acc, swapped bool) func() []jsonpath.Config {
-		return func() []jsonpath.Config {
-			c := jsonpath.Config{}
-			if f {
-				c.SetFilterFunction("f", func(v interface{}) (interface{}, error) { return fmt.Sprintf("f@%s(%s)", tag, lib.JS(v)), nil })
-			}
-			if g {
-				c.SetAggregateFunction("g", func(v []interface{}) (interface{}, error) { return fmt.Sprintf("g@%s(%d)", tag, len(v)), nil })
-			}
-			if h {
-				c.SetFilterFunction("h", func(v interface{}) (interface{}, error) { return nil, errors.New("h@" + tag + " fails") })
-			}
-			if swapped {
-				// the same names with swapped roles
-				c.SetFilterFunction("g", func(v interface{}) (interface{}, error) { return "G-as-filter@" + tag, nil })
-				c.SetAggregateFunction("f", func(v []interface{}) (interface{}, error) { return "F-as-aggregate@" + tag, nil })
-			}
-			if acc {
-				c.SetAccessorMode()
-			}
-			return []jsonpath.Config{c}
+	var out []func() []jsonpath.Config
+	for _, spec := range histConfigSpecs {
+		spec := spec
+		switch spec.tag {
+		case "none":
+			out = append(out, func() []jsonpath.Config { return nil })
+		default:
+			out = append(out, func() []jsonpath.Config {
+				c := jsonpath.Config{}
+				spec.apply(&c)
+				return []jsonpath.Config{c}
+			})
 		}
 	}
-	return []func() []jsonpath.Config{
-		func() []jsonpath.Config { return nil },
-		mk("c1", true, true, false, false, false),
-		mk("c2", true, true, true, false, false),
-		mk("c3", true, true, false, true, false),
-		mk("c4", false, true, false, false, false),
-		mk("c5", false, false, false, true, false),
-		mk("c6", true, true, true, true, false),
-		mk("c7", false, false, false, false, true),
-		func() []jsonpath.Config { return []jsonpath.Config{{}} },
+	return out
+}
+
+// cfgSpec: what one configuration registers. apply sets all of it on an existing Config (replacing what
+// is registered under the same ids), so a live Config object can be moved from one specification to any
+// superset specification in place and is then equal in content to a fresh Config of that specification.
+type cfgSpec struct {
+	tag                   string
+	f, g, h, acc, swapped bool
+}
+
+func (s cfgSpec) apply(c *jsonpath.Config) {
+	tag := s.tag
+	if s.f {
+		c.SetFilterFunction("f", func(v interface{}) (interface{}, error) { return fmt.Sprintf("f@%s(%s)", tag, lib.JS(v)), nil })
 	}
+	if s.g {
+		c.SetAggregateFunction("g", func(v []interface{}) (interface{}, error) { return fmt.Sprintf("g@%s(%d)", tag, len(v)), nil })
+	}
+	if s.h {
+		c.SetFilterFunction("h", func(v interface{}) (interface{}, error) { return nil, errors.New("h@" + tag + " fails") })
+	}
+	if s.swapped {
+		// the same names with swapped roles
+		c.SetFilterFunction("g", func(v interface{}) (interface{}, error) { return "G-as-filter@" + tag, nil })
+		c.SetAggregateFunction("f", func(v []interface{}) (interface{}, error) { return "F-as-aggregate@" + tag, nil })
+	}
+	if s.acc {
+		c.SetAccessorMode()
+	}
+}
+
+// within: everything s registers is also registered by t (swapped registers g as a filter and f as an aggregate,
+// which f/g of t would not replace - so a swapped specification is only within a swapped one).
+func (s cfgSpec) within(t cfgSpec) bool {
+	le := func(a, b bool) bool { return !a || b }
+	return le(s.f, t.f) && le(s.g, t.g) && le(s.h, t.h) && le(s.acc, t.acc) && le(s.swapped, t.swapped)
+}
+
+var histConfigSpecs = []cfgSpec{
+	{tag: "none"},
+	{tag: "c1", f: true, g: true},
+	{tag: "c2", f: true, g: true, h: true},
+	{tag: "c3", f: true, g: true, acc: true},
+	{tag: "c4", g: true},
+	{tag: "c5", acc: true},
+	{tag: "c6", f: true, g: true, h: true, acc: true},
+	{tag: "c7", swapped: true},
+	{tag: "empty"},
+	{tag: "c9", f: true, g: true, swapped: true}, // every id in both tables
+	{tag: "c10", f: true, g: true, h: true, acc: true, swapped: true},
 }
 
 // behaviour renders what a parsed function does on the probe battery.
@@ -101,19 +132,23 @@ func behaviour(f lib.Func) string {
 func parseOutcome(pi, ci int, mutate bool) string { return parseOutcomeText(histPaths[pi], ci, mutate) }
 
 func parseOutcomeText(text string, ci int, mutate bool) string {
-	cfgs := histConfigs()[ci]()
+	out, _ := parseOutcomeWith(text, histConfigs()[ci](), mutate)
+	return out
+}
+
+func parseOutcomeWith(text string, cfgs []jsonpath.Config, mutate bool) (string, lib.Func) {
 	po := lib.Parse(text, cfgs...)
 	if po.Panic != nil {
-		return fmt.Sprintf("PANIC(%v)", po.Panic)
+		return fmt.Sprintf("PANIC(%v)", po.Panic), nil
 	}
 	if po.Err != nil {
 		if po.F != nil {
-			return "BOTH " + lib.ErrString(po.Err)
+			return "BOTH " + lib.ErrString(po.Err), nil
 		}
-		return "ERR " + lib.ErrString(po.Err)
+		return "ERR " + lib.ErrString(po.Err), nil
 	}
 	if po.F == nil {
-		return "NIL-NIL"
+		return "NIL-NIL", nil
 	}
 	if mutate && len(cfgs) > 0 {
 		cfgs[0].SetFilterFunction("f", func(v interface{}) (interface{}, error) { return "MUTATED-f", nil })
@@ -121,7 +156,7 @@ func parseOutcomeText(text string, ci int, mutate bool) string {
 		cfgs[0].SetFilterFunction("h", func(v interface{}) (interface{}, error) { return "MUTATED-h", nil })
 		cfgs[0].SetAccessorMode()
 	}
-	return behaviour(po.F)
+	return behaviour(po.F), po.F
 }
 
 // FreshOutcomeMain is `vcheck fresh-outcome <pi> <ci>`: the call made first in a fresh process.
@@ -204,10 +239,12 @@ func init() {
 		ID:    "C19",
 		Level: "exploration",
 		Rule: fmt.Sprintf("case = one history of 2..10 Parse calls over %d paths (valid ones and ones failing in every action that can fail: bad index integer, bad float, bad regex, bad quoted "+
-			"string, unknown function, script, value-group operand, two @, trailing garbage, empty, unterminated) x 9 configurations (none, empty, function sets whose outputs are tagged with "+
+			"string, unknown function, script, value-group operand, two @, trailing garbage, empty, unterminated) x 11 configurations (none, empty, function sets whose outputs are tagged with "+
 			"the configuration, a set with the same names in swapped roles, accessor mode); the OUTCOME of each call - the exact error, or the behaviour of the returned function on 4 probe "+
 			"documents incl. accessor-ness and Set==nil - is compared with the outcome of the same call made as the first call of a fresh process (one child process per distinct call, cached); "+
-			"one call per history additionally mutates its Config after Parse; the parser-residue hook is read after every call; non-trivial = the history contains a failing call followed by "+
+			"one call per history additionally mutates its Config after Parse; a third of the histories use ONE live Config object for all calls, modified in place between them "+
+			"(functions replaced under the same ids, ids added to the other table, accessor mode switched on - always to a content that equals one of the configurations), and the function "+
+			"parsed before each modification must keep its behaviour; the parser-residue hook is read after every call; non-trivial = the history contains a failing call followed by "+
 			"a succeeding one, or two different configurations; distinct = distinct histories", len(histPaths)),
 		Assumptions: []string{"the outcome of the first call in a fresh process is the history-free meaning of Parse(path, config)"},
 		Plan: func(tier string, seed int64) *harness.Plan {
@@ -222,7 +259,7 @@ func init() {
 				},
 				Run:      func(c *harness.Ctx, k int) { runC19(c, fc) },
 				Finish:   reportHooks,
-				Required: []string{"history:generated-path", "history:fail-then-success", "history:config-switch", "history:config-mutated", "outcome:error", "outcome:function", "residue:clean"},
+				Required: []string{"history:generated-path", "history:fail-then-success", "history:config-switch", "history:config-mutated", "history:live-config-modified-in-place", "outcome:error", "outcome:function", "residue:clean"},
 			}
 		},
 	})
@@ -261,6 +298,34 @@ func runC19(c *harness.Ctx, fc *freshCache) {
 		}
 	}
 	mutateAt := r.Intn(n)
+	// live-Config histories: ONE Config object serves the whole history and is moved in place from one specification to a
+	// superset specification between the calls (functions replaced under the same ids, ids added to the other table,
+	// accessor mode switched on); at every call it is equal in content to a fresh Config of the current specification
+	shared := r.Intn(3) == 0
+	var live jsonpath.Config
+	liveSpec := 8 // "empty"
+	var prevF lib.Func
+	var prevBehaviour, prevCall string
+	if shared {
+		mutateAt = -1
+		for i := range calls {
+			if calls[i].ci == 0 && r.Intn(2) == 0 {
+				continue // a call without any Config in between
+			}
+			var ups []int
+			for ci, sp := range histConfigSpecs {
+				if ci != 0 && histConfigSpecs[liveSpec].within(sp) && (ci == liveSpec || sp.tag != "empty") {
+					ups = append(ups, ci)
+				}
+			}
+			calls[i].ci = ups[r.Intn(len(ups))]
+			liveSpec = calls[i].ci
+			if i > 0 && r.Intn(2) == 0 {
+				calls[i].pi, calls[i].text = calls[i-1].pi, calls[i-1].text // the same path again with the Config modified in place
+			}
+		}
+		liveSpec = 8
+	}
 	var hist []string
 	prevFailed, prevCfg := false, -1
 	interesting := false
@@ -277,11 +342,34 @@ func runC19(c *harness.Ctx, fc *freshCache) {
 		if !ok {
 			return
 		}
-		got = parseOutcomeText(text, cl.ci, i == mutateAt)
+		if shared && cl.ci != 0 {
+			if cl.ci != liveSpec {
+				histConfigSpecs[cl.ci].apply(&live)
+				liveSpec = cl.ci
+				c.Cover("history:live-config-modified-in-place")
+			}
+			var f lib.Func
+			got, f = parseOutcomeWith(text, []jsonpath.Config{live}, false)
+			// "the returned function keeps the functions it was parsed with even if the Config is modified afterwards"
+			if prevF != nil {
+				if now := behaviour(prevF); now != prevBehaviour {
+					c.Violation("function-follows-config "+strings.Join(hist, " ; "), "a function parsed earlier changed its behaviour after its Config object was modified in place and used for another Parse",
+						map[string]interface{}{"history": hist, "function_of": prevCall, "behaviour_when_parsed": prevBehaviour, "behaviour_now": now})
+					return
+				}
+			}
+			prevF, prevBehaviour, prevCall = f, got, fmt.Sprintf("Parse(%q, live Config as cfg%d)", text, cl.ci)
+		} else {
+			got = parseOutcomeText(text, cl.ci, i == mutateAt)
+		}
 		if i == mutateAt && cl.ci != 0 {
 			c.Cover("history:config-mutated")
 		}
-		hist = append(hist, fmt.Sprintf("Parse(%q, cfg%d)", text, cl.ci))
+		if shared && cl.ci != 0 {
+			hist = append(hist, fmt.Sprintf("Parse(%q, live Config moved in place to cfg%d)", text, cl.ci))
+		} else {
+			hist = append(hist, fmt.Sprintf("Parse(%q, cfg%d)", text, cl.ci))
+		}
 		failed := strings.HasPrefix(got, "ERR ")
 		if failed {
 			c.Cover("outcome:error")
